@@ -427,6 +427,20 @@ func (x *Exec) ThreadBlocked(i int) bool {
 	return !t.done && !t.enabled()
 }
 
+// ThreadWaitsOnChannel reports whether thread i is parked at a channel operation (select or a
+// statement-level send/receive) none of whose cases can proceed now. Waiting for a mutex is not
+// included: its holder is inside a critical section and either leaves it or the execution ends
+// in a detected deadlock.
+//
+//go:norace
+func (x *Exec) ThreadWaitsOnChannel(i int) bool {
+	if i < 0 || i >= x.n {
+		return false
+	}
+	t := x.threads[i]
+	return !t.done && t.kind == KSelect && !t.enabled()
+}
+
 // InHook makes Cur() return nil while fn runs, so that instrumented code called from a hook
 // (e.g. a read-only accessor that takes a lock) runs in pass-through mode.
 //
